@@ -248,6 +248,58 @@ fn one_variant<V: Variant>(ctx: &mut Ctx, tier: Tier, own: &Objects, other: &Obj
     part.exhaustive = true;
     t.into_part(ctx, part);
 
+    // two and three deviations at once: a check that counts, folds or short-circuits over several bad fields must
+    // still reject (every subset of size 2 and 3 of 12 secret-key positions, 4 per polynomial; every pair of 6
+    // public-key positions x two out-of-range values)
+    let mut sk_pos: Vec<(usize, usize)> = vec![];
+    for (width, base) in [(w, 8usize), (w, 8 + n * w), (8, 8 + 2 * n * w)] {
+        for fld in [0usize, 1, n / 2, n - 1] {
+            sk_pos.push((width, base + fld * width));
+        }
+    }
+    let mut subsets: Vec<Vec<usize>> = vec![];
+    for a in 0..sk_pos.len() {
+        for b in a + 1..sk_pos.len() {
+            subsets.push(vec![a, b]);
+            for c in b + 1..sk_pos.len() {
+                subsets.push(vec![a, b, c]);
+            }
+        }
+    }
+    subsets.push((0..sk_pos.len()).collect());
+    subsets.push((0..sk_pos.len()).step_by(2).collect());
+    let t = subsets
+        .par_iter()
+        .map(|sub| {
+            let mut t = Tally::default();
+            let mut b = own.sk.clone();
+            for &i in sub {
+                let (width, pos) = sk_pos[i];
+                set_bits(&mut b, pos, width, 1 << (width - 1));
+            }
+            strict_case::<V>(&mut t, "SecretKey", &b, &format!("sk-reserved-x{}", sub.len().min(4)));
+            t
+        })
+        .reduce(Tally::default, reduce);
+    let mut part = Part::new(&format!("sk_reserved_subsets_{}", n), "the reserved value at every subset of size 2 and 3 (and two larger ones) of 12 field positions (first, second, middle, last field of f, g and F): all must be rejected");
+    part.exhaustive = true;
+    t.into_part(ctx, part);
+    let pk_pos: Vec<usize> = vec![0, 1, n / 2 - 1, n / 2, n - 2, n - 1];
+    let mut t = Tally::default();
+    for a in 0..pk_pos.len() {
+        for b2 in a + 1..pk_pos.len() {
+            for (va, vb) in [(12289u32, 12289u32), (12289, 16383), (16383, 12289), (16383, 16383), (24578, 12289)] {
+                let mut b = own.pk.clone();
+                set_bits(&mut b, 8 + 14 * pk_pos[a], 14, va);
+                set_bits(&mut b, 8 + 14 * pk_pos[b2], 14, vb);
+                strict_case::<V>(&mut t, "PublicKey", &b, "pk-field>=q-x2");
+            }
+        }
+    }
+    let mut part = Part::new(&format!("pk_out_of_range_pairs_{}", n), "out-of-range values (q, 2q, 16383) at every pair of the public-key fields {0, 1, n/2-1, n/2, n-2, n-1}: all must be rejected");
+    part.exhaustive = true;
+    t.into_part(ctx, part);
+
     // signatures: the single accepted header with arbitrary bodies (bodies are copied verbatim)
     let l = sig_len(n);
     let mut t = Tally::default();
